@@ -30,6 +30,34 @@ asn1f_parameterization_fork(arg_t *arg, asn1p_expr_t *expr, asn1p_expr_t *rhs_ps
 	assert(expr->parent_expr == 0);
 
 	/*
+	 * A parameter without a governor stands for a type. The parser reads
+	 * the actual parameter "NULL" as a value: it is the NULL type here.
+	 * Any other value cannot be used in place of a type.
+	 */
+	m = TQ_FIRST(&rhs_pspecs->members);
+	for(npspecs = 0; m && npspecs < expr->lhs_params->params_count;
+			npspecs++, m = TQ_NEXT(m, next)) {
+		if(expr->lhs_params->params[npspecs].governor
+		|| m->meta_type != AMT_VALUE)
+			continue;
+		if(!m->value || m->value->type != ATV_NULL) {
+			FATAL("Parameterization of %s failed: a value is given "
+				"for the type parameter %s at line %d",
+				expr->Identifier,
+				expr->lhs_params->params[npspecs].argument,
+				rhs_pspecs->_lineno);
+			errno = EPERM;
+			return NULL;
+		}
+		asn1p_value_free(m->value);
+		m->value = 0;
+		free(m->Identifier);
+		m->Identifier = 0;
+		m->expr_type = ASN_BASIC_NULL;
+		m->meta_type = AMT_TYPE;
+	}
+
+	/*
 	 * Find if this exact specialization has been used already.
 	 */
 	for(npspecs = 0;
